@@ -4,8 +4,9 @@
 ROOT="$(cd "$(dirname "${BASH_SOURCE[0]}")/.." && pwd)"
 cd "$ROOT"
 miss=0; n=0
-# changes that do not violate the property they were written against (DESIGN.md sections 9 and 11): expected to pass
-DOCUMENTED="mutants/C09-validate-restores-dense-only.patch mutants/C11-subtract-order-in-loop.patch mutants/C13-window-one-longer.patch mutants/data-dependent/C12-data/ mutants/data-dependent/C01-data/ seeded/C02-wave9/"
+# changes that do not violate the property they were written against, or that lie outside a limit stated in DESIGN.md
+# (sections 9 and 11): expected to pass
+DOCUMENTED="mutants/C09-validate-restores-dense-only.patch mutants/C11-subtract-order-in-loop.patch mutants/C13-window-one-longer.patch mutants/data-dependent/C12-data/ mutants/data-dependent/C01-data/ seeded/C02-wave9/ seeded/C05-wave10/ seeded/C06-wave10/"
 doc=0
 run() { # patch prop label
   n=$((n+1))
@@ -17,4 +18,4 @@ run() { # patch prop label
 }
 for f in mutants/*.patch; do run "$ROOT/$f" "$(basename $f | cut -c1-3)" "$f"; done
 for d in seeded/*/ mutants/beyond-bounds/*/ mutants/data-dependent/*/; do [ -f "$d/patch.diff" ] && run "$ROOT/$d/patch.diff" "$(basename $d | cut -c1-3)" "$d"; done
-echo "regress: $n changes, $miss not caught, $doc documented as not violating (equivalent / left open by the statement / decided by another property)"
+echo "regress: $n changes, $miss not caught, $doc documented (equivalent / left open by the statement / decided by another property / outside a stated limit)"
